@@ -79,6 +79,7 @@ type pstate struct {
 	heapOwned map[string]*ownedRef
 	ufSeen  map[*smt.Term]int // applications of recursive specification functions whose definition is already among the hypotheses
 	frames  []*inlFrame       // inlined callees being executed (see inline.go)
+	maps    map[int]*mapState // exactly modelled local maps (see maps.go)
 }
 
 type loopCtx struct {
@@ -102,6 +103,12 @@ func (p *pstate) fork() *pstate {
 	}
 	n.defers = append([]deferred{}, p.defers...)
 	n.frames = append([]*inlFrame{}, p.frames...)
+	if p.maps != nil {
+		n.maps = make(map[int]*mapState, len(p.maps))
+		for k, v := range p.maps {
+			n.maps[k] = v // states are replaced, never mutated
+		}
+	}
 	n.epoch = p.epoch
 	if p.owned != nil {
 		n.owned = make(map[int]*ownedCell, len(p.owned))
@@ -149,6 +156,8 @@ type exec struct {
 	ownedN, ownedViol int
 	ownedParams []ownedParam
 	inlined  map[*ssa.Function]bool
+	exactMaps map[*ssa.MakeMap]bool
+	mapN     int
 }
 
 type ownedParam struct {
@@ -377,7 +386,11 @@ func (x *exec) evalAt(st *pstate, sc *scope) *Eval {
 	}
 	return &Eval{P: x.p, Env: x.env, Pkg: pkg, Heap: st.heap, Old: x.old, Scope: sc, TParams: x.tparams, Facts: func(t *smt.Term) { st.assume(t, "type invariant of a value read by a specification") },
 		Owned: func(r *ownedRef) *smt.Term { return x.ownedTerm(st, r, x.fn.Pos()) }, ufSeen: x.ufSeenOf(st),
-		OwnedField: func(ol *ownedFieldLoc) *smt.Term { return x.ownedFieldPeek(st, ol) }}
+		OwnedField: func(ol *ownedFieldLoc) *smt.Term { return x.ownedFieldPeek(st, ol) },
+		LocalMap: func(m *localMap) (*smt.Term, *smt.Term) {
+			ms := x.mapStateOf(st, m)
+			return ms.present, ms.vals
+		}}
 }
 
 func (x *exec) ufSeenOf(st *pstate) map[*smt.Term]int {
@@ -478,6 +491,9 @@ func (x *exec) loopWrites(h *ssa.BasicBlock) *writeSet {
 			case *ssa.Store:
 				x.addWriteHeap(w, in.Addr)
 			case *ssa.MapUpdate:
+				if mk, isMake := in.Map.(*ssa.MakeMap); isMake && x.exactMap(mk) {
+					continue // an exactly modelled local map: forgotten separately (enterLoop)
+				}
 				w.all = true
 			case *ssa.Alloc:
 				w.heaps["next"] = smt.Int
@@ -566,6 +582,9 @@ func (x *exec) callWrites(w *writeSet, cc *ssa.CallCommon) {
 				w.all = true
 			}
 		case "delete":
+			if mk, isMake := cc.Args[0].(*ssa.MakeMap); isMake && x.exactMap(mk) {
+				return
+			}
 			w.all = true
 		}
 		return
